@@ -201,6 +201,9 @@ let v1_send (magic : Model.n list) (sched : int array) (st : sendst) (t : string
       let (_, wire) = Model.v1_pump sc s [] in
       string_of_nl wire
 
+(* crafted frames seen in the last read_items: (24 header bytes, payload bytes that follow) *)
+let crafted_frames : (string * string) list ref = ref []
+let raw_bytes_items = ref false
 let read_items c (magic : Model.n list) (sched : int list) : string * (string * string) list * bool =
   expect c "I";
   let n = num c in
@@ -208,13 +211,14 @@ let read_items c (magic : Model.n list) (sched : int list) : string * (string * 
   let sa = Array.of_list sched in
   let buf = Buffer.create 256 in
   let sent = ref [] and crafted = ref false in
+  crafted_frames := []; raw_bytes_items := false;
   for _ = 1 to n do
     match next c with
     | "M" -> let t = raw_of_hex (next c) in let p = pspec (next c) in
         Buffer.add_string buf (v1_send magic sa st t p); sent := (t, p) :: !sent
     | "R" -> let h = raw_of_hex (next c) in let p = pspec (next c) in
-        Buffer.add_string buf h; Buffer.add_string buf p; crafted := true
-    | "B" -> Buffer.add_string buf (raw_of_hex (next c)); crafted := true
+        Buffer.add_string buf h; Buffer.add_string buf p; crafted := true; crafted_frames := (h, p) :: !crafted_frames
+    | "B" -> Buffer.add_string buf (raw_of_hex (next c)); crafted := true; raw_bytes_items := true
     | k -> failwith ("bad item " ^ k)
   done;
   (Buffer.contents buf, List.rev !sent, !crafted)
@@ -257,6 +261,7 @@ let pkt_desc (ig : bool) (cn : string) : string =
   let pl = min (String.length cn) 13 in
   (if ig then "1" else "0") ^ ":" ^ hex_of_raw (String.sub cn 0 pl) ^ ":" ^ string_of_int (String.length cn) ^ ":" ^ hex64 (fnv cn)
 
+let within_limit_trunc = ref false
 (* returns the model's output line and, for `holds`, what had to be delivered / the expected tx field *)
 let run_v2 c =
   let magic = magic_of (num c) in
@@ -306,7 +311,9 @@ let run_v2 c =
     end in
   let line = "rx=" ^ string_of_int rxlen ^ " sid=" ^ sid ^ " dead=" ^ string_of_bool01 dead ^ " outs=" ^ outs_str (Model.conn_outs r)
              ^ " tx=" ^ tx ^ " txlen=" ^ txlen in
-  (* a peer that announces a packet without sending it is treated like a tampered stream: only a prefix is due *)
+  (* a peer that announces a packet without sending it is treated like a tampered stream: only a prefix is due;
+     announcing a length within the limit must not cost the connection *)
+  within_limit_trunc := (match !trunc with Some (_, len) -> flips = [] && len <= int_of_z Model.mAX_CONTENTS_LEN | None -> false);
   (line, Model.v2_expected ids false pkts, flips <> [] || !trunc <> None, tx)
 
 let run_v2rr c =
@@ -375,7 +382,27 @@ let holds _args case impl =
     match w.(0) with
     | "v1" ->
         let (_, sent, crafted, tampered) = run_v1 c in
-        if crafted then "na"
+        if crafted then begin
+          (* crafted frames: the checksum clause evaluated on what was delivered — every delivered payload must be the
+             payload of a frame whose checksum field is the checksum of that payload — and a header announcing a size
+             within the limit must not cost the connection *)
+          if !raw_bytes_items then "na" else begin
+            let magic = string_of_nl (magic_of (int_of_string (List.nth (words case) 1))) in
+            let maxp = int_of_z Model.mAX_CONTENTS_LEN - 13 in
+            let size_of h = Char.code h.[16] + (Char.code h.[17] lsl 8) + (Char.code h.[18] lsl 16) + (Char.code h.[19] lsl 24) in
+            let dig p = string_of_int (String.length p) ^ ":" ^ hex64 (fnv p) in
+            let legit = List.map (fun (_, p) -> dig p) sent
+                        @ List.filter_map (fun (h, p) ->
+                            if String.length h = 24 && String.sub h 20 4 = String.sub (sha256 (sha256 p)) 0 4 then Some (dig p) else None) !crafted_frames in
+            let got = parse_outs (field impl "outs") in
+            let bad = List.exists (function Model.Delivered (_, p) -> not (List.mem (string_of_nl p) legit) | Model.Rejected -> false) got in
+            let within = (not tampered) && List.for_all (fun (h, p) ->
+                            String.length h = 24 && String.sub h 0 4 = magic && size_of h <= maxp && String.length p <= size_of h) !crafted_frames in
+            if bad then "fail v1-delivered-a-payload-that-does-not-match-its-checksum"
+            else if within && field impl "dead" = "1" then "fail v1-disconnected-on-a-frame-within-the-size-limit"
+            else "ok"
+          end
+        end
         else begin
           let sent = List.map (fun (t, p) -> digest_out (Model.Delivered (nl_of_string t, nl_of_string p))) sent in
           let got = parse_outs (field impl "outs") in
@@ -391,6 +418,7 @@ let holds _args case impl =
         let dead = field impl "dead" = "1" in
         if not (Model.holds_v2 tampered expected got dead) then
           (if tampered then "fail v2-delivered-something-not-sent-after-tampering" else "fail v2-untampered-stream-not-delivered-exactly")
+        else if !within_limit_trunc && dead then "fail v2-disconnected-on-a-packet-within-the-size-limit"
         else if (not tampered) && field impl "sid" <> "1" && expected <> [] then "fail v2-session-id-mismatch"
         else begin
           let itx = field impl "tx" in
